@@ -69,7 +69,7 @@ def execute(case, chooser):
         kitty=enc(r.get("kitty")), st=st)
     cols, rows, xpx, ypx = case.get("win", (80, 24, 0, 0))
     tty = M.TraceTty(cols, rows, xpx, ypx, responder=resp, attrs=M.make_attrs(case.get("attrs", "canon-echo")),
-                     chooser=chooser, allow_silence=bool(case.get("late")))
+                     chooser=chooser, allow_silence=bool(case.get("late")), eager=case.get("eager", True))
     world.install(tty)
     if case.get("swap"):
         L.ti.enable_win_size_swap()
@@ -385,18 +385,36 @@ def spec(lens, pats):
     return "rgb:" + "/".join(_digits(n, p) for n, p in zip(lens, pats))
 
 
+def mixed_case(text):
+    """Alternate the case of the hex letters: 'ffff/a5c3' -> 'fFfF/a5C3'."""
+    out, up = [], False
+    for ch in text:
+        if ch.isalpha():
+            out.append(ch.upper() if up else ch.lower())
+            up = not up
+        else:
+            out.append(ch)
+    return "".join(out)
+
+
 def build_cases(tier):
     quick = tier == "quick"
     cases = []
     add = cases.append
     # ---- A: colour grid, default schedule (bound 0)
-    pats = "0f8" if quick else "0f87A1e"
+    pats = "0f8A" if quick else "0f87A1e"
     for lens in itertools.product((1, 2, 3, 4), repeat=3):
         for pp in itertools.product(pats, repeat=3):
-            fg = spec(lens, pp)
-            bg = spec(lens[1:] + lens[:1], pp[::-1])
-            for st in ("ST", "BEL"):
-                add(dict(part="A", op="colors", resp=dict(fg=fg, bg=bg, st=st), bound=0))
+            fg0 = spec(lens, pp)
+            bg0 = spec(lens[1:] + lens[:1], pp[::-1])
+            seen_specs = set()
+            for render in (str.lower, str.upper, mixed_case):     # hex digits are case-insensitive
+                fg, bg = "rgb:" + render(fg0[4:]), "rgb:" + render(bg0[4:])
+                if (fg, bg) in seen_specs:
+                    continue
+                seen_specs.add((fg, bg))
+                for st in ("ST", "BEL"):
+                    add(dict(part="A", op="colors", resp=dict(fg=fg, bg=bg, st=st), bound=0))
     # ---- B: colours under every schedule and every subset of supported queries
     specs = [("rgb:ffff/ffff/ffff", "rgb:0000/0000/0000"), ("rgb:8080/1a1a/e0e0", "rgb:12/34/56"),
              ("rgb:f/f/f", "rgb:c0c/1c1/ccc"), ("rgb:f/ffff/ff", "rgb:ffff/ff/f")]
@@ -558,7 +576,7 @@ def run(ctx):
                 "at least one reply was delivered (or no query was needed)")
     ctx.coverage.update(
         cases=len(cases),
-        parts=dict(A="colour grid 4^3 widths x value patterns x ST/BEL, default schedule",
+        parts=dict(A="colour grid 4^3 widths x value patterns x lower/UPPER/MiXed hex digits x ST/BEL, default schedule",
                    B="colours x 2^3 supported subsets x every schedule", C="identity strings x DA1 on/off x every schedule",
                    D="cell size: 2^3 subsets x ioctl variants x swap x every schedule",
                    E="is_supported / auto_image_class / AutoImage / from_file: identity x kitty reply x DA1 x every schedule",
@@ -568,7 +586,7 @@ def run(ctx):
                      "swap on/off} ending with a get, length <= %d" % (4 if quick else 5),
                    G="late replies (outside premise), deviation bound %d" % (2 if quick else 4)),
         schedule_bound="unbounded (whole choice tree) in parts B-F; 0 in A",
-        delays=["0", "0.001 s", "0.98 x remaining timeout"], timeouts=[0.1] if quick else [0.1, 0.03],
+        delays=["already queued at tcdrain (first j replies)", "0", "0.001 s", "0.98 x remaining timeout"], timeouts=[0.1] if quick else [0.1, 0.03],
         identities=len(IDENTS_QUICK) + (0 if quick else len(IDENTS_MORE)))
     ctx.assumptions += [
         "world.VTty is the tty: replies are atomic, in order, delivered at blocking select/read calls; virtual clock",
